@@ -42,6 +42,9 @@ func c04Config(c *AppConfigFile, dir string) {
 	c.OpenIDConnectIDP.Client = []OpenIDConnectClientConfig{
 		{ClientID: c04ClientA, ClientSecret: c04SecretA, AllowedRedirectDomains: []string{"a.example"}},
 		{ClientID: c04ClientB, ClientSecret: "", AllowedRedirectDomains: []string{"b.example"}},
+		// a second confidential client: the two-channel product of c04_channels.go needs a client that
+		// can authenticate with credentials of its own while naming another one
+		{ClientID: c04ClientC, ClientSecret: c04SecretC, AllowedRedirectDomains: []string{"c.example"}},
 	}
 }
 
@@ -848,6 +851,10 @@ func TestVerif_C04(t *testing.T) {
 	}
 	sb.WriteString("].\nDefinition c04_corrupt_mismatches := Eval vm_compute in flat_map (batch_mismatches c04_idp toks) corrupt_batches.\nPrint c04_corrupt_mismatches.\n")
 	sb.WriteString(fmt.Sprintf("Definition c04_ncorrupt := %d%%nat.\nPrint c04_ncorrupt.\n", ncorrupt))
+	// ---- 6. the two identity channels of the token endpoint (after everything else: fresh codes)
+	chCoq, _ := env.c04Channels(t, res)
+	sb.WriteString("From KM Require Import Model.OIDCChannels.\n")
+	sb.WriteString(chCoq)
 	if err := ioutil.WriteFile(filepath.Join(verifOut(), "CasesC04.v"), []byte(sb.String()), 0644); err != nil {
 		t.Fatal(err)
 	}
